@@ -1,4 +1,5 @@
 import Orca.Model.Edit
+import Orca.Model.EditInv
 import Driver.Util
 namespace Driver
 open Orca.Edit Orca.Reindex
@@ -93,13 +94,36 @@ def insertSorted (x : Nat × String) : List (Nat × String) → List (Nat × Str
   | [] => [x]
   | y :: ys => if x.1 ≤ y.1 then x :: y :: ys else y :: insertSorted x ys
 
+def siteLine (f g m : List Nat) (res : List Ref) (sp : Sp) : String :=
+  let sites := ((res.filter (fun r => r.sp == sp)).map (fun r => (r.site, uidAt f g m r))).foldl (fun acc x => insertSorted x acc) []
+  showStrs (sites.map (fun p => s!"{p.1}>{p.2}"))
+
 def showEnc (case : String) (k : Nat) : Ret → List String
   | .encoded f g m res st =>
-    let sites := (res.map (fun r => (r.site, uidAt f g m r))).foldl (fun acc x => insertSorted x acc) []
-    let ss := showStrs (sites.map (fun p => s!"{p.1}>{p.2}"))
     let stS := match st with | some r => s!"{r.site}>{uidAt f g m r}" | none => "-"
-    [s!"edit {case} enc{k} F={showNats f} G={showNats g} M={showNats m}", s!"edit {case} enc{k} sites={ss} start={stS}"]
+    [s!"edit {case} enc{k}.F={showNats f}", s!"edit {case} enc{k}.G={showNats g}", s!"edit {case} enc{k}.M={showNats m}",
+     s!"edit {case} enc{k}.sitesF={siteLine f g m res .F}", s!"edit {case} enc{k}.sitesG={siteLine f g m res .G}",
+     s!"edit {case} enc{k}.sitesM={siteLine f g m res .M}", s!"edit {case} enc{k}.start={stS}"]
   | _ => []
+
+/-- which line an operation's return value is reported on -/
+def opClass : Op → Nat
+  | .addLocalFunc .. | .addImportFunc .. | .deleteFunc .. | .localToImport .. | .replaceImport .. | .inject .. => 0
+  | .addGlobal .. | .addImportedGlobal .. | .iterAddGlobal .. | .deleteGlobal .. | .modGlobalInit .. => 1
+  | .addLocalMem .. | .addImportMem .. | .deleteMem .. => 2
+  | _ => 3
+
+/-- like `Orca.Edit.run`, also recording whether the state invariant holds in front of every `encode` -/
+def runInv (s : St) : List Op → List Ret × List Bool
+  | [] => ([], [])
+  | op :: ops =>
+    let inv := match op with | .encode => [stInvB s] | _ => []
+    let r := step s op
+    match r.2 with
+    | .panic _ => ([r.2], inv)
+    | _ =>
+      let r2 := runInv r.1 ops
+      (r.2 :: r2.1, inv ++ r2.2)
 
 def runEdit (toks : List String) : List String :=
   match toks with
@@ -120,9 +144,14 @@ def runEdit (toks : List String) : List String :=
       let ops ← (kv rest "OPS").bind (fun s => (if s = "-" then [] else s.splitOn ";").mapM parseEOp)
       let s0 : St := { f := f, g := g, m := m, imports := imps, code := code, ginit := ginit,
                        exports := exps.map (fun r => (r, false)), start := start, elems := elems, raws := raws, datas := datas, numData := ndata }
-      let out := run s0 ops
+      let outI := runInv s0 ops
+      let out : St × List Ret := (s0, outI.1)
       let encs := (out.2.filter (fun r => match r with | .encoded .. => true | _ => false)).zipIdx
-      pure ([s!"edit {case} ret={showStrs (out.2.map showRet)}"] ++ encs.flatMap (fun p => showEnc case p.2 p.1))
+      let invLine := s!"edit {case} inv={showStrs ((outI.2.take 1).map (fun b => if b then "ok" else "VIOLATED"))}"
+      let tagged := (ops.take out.2.length).zip out.2
+      let retLine (c : Nat) (nm : String) : String :=
+        s!"edit {case} {nm}={showStrs ((tagged.filter (fun p => opClass p.1 == c)).map (fun p => showRet p.2))}"
+      pure ([retLine 0 "retF", retLine 1 "retG", retLine 2 "retM", retLine 3 "retX", invLine] ++ encs.flatMap (fun p => showEnc case p.2 p.1))
     match r with
     | some ls => ls
     | none => [s!"edit {case} bad-op"]
